@@ -164,10 +164,13 @@ Definition total_signature_validations (t : tx_v2) : N :=
   v2_root_signatures t + (match v2_tip t with Some _ => 1 | None => 0 end) + sum (v2_batches t).
 
 Definition within_v2 (c : config) (net : option N) (t : tx_v2) : Prop :=
-  (match v2_tip t with Some _ => v2_payload_len t <= max_user_payload_length c | None => True end) /\
+  (match v2_tip t with
+   | Some _ => v2_preview t = true \/ v2_payload_len t <= max_user_payload_length c
+   | None => True end) /\
   Forall (prep_within c) (intents t) /\
   len (v2_subs t) <= max_subintents_per_transaction c /\
-  len (v2_batches t) <= max_subintents_per_transaction c /\
+  (v2_preview t = true \/ len (v2_batches t) <= max_subintents_per_transaction c) /\
+  (v2_tip t = None -> max_subintent_depth c <> 0) /\
   v2_transactions_allowed c = true /\
   v2_root_signatures t <= max_signer_signatures_per_intent c /\
   length (v2_subs t) = length (v2_batches t) /\
@@ -338,34 +341,56 @@ Qed.
 Lemma len_eqb : forall A B (a : list A) (b : list B), (len a =? len b) = true <-> length a = length b.
 Proof. intros. unfold len. rewrite N.eqb_eq. lia. Qed.
 
+Ltac wsplit W :=
+  destruct W as (W1 & W2 & W3 & W4 & W5 & W6 & W7 & W8 & W9 & W10 & W11 & W12 & W13 & W14).
 Theorem v2_accept_iff : forall c net t r,
   validate_v2 c net t = AcceptV2 r <-> within_v2 c net t /\ r = range_of (agg_all t).
 Proof.
   intros c net t r. unfold validate_v2, prepare_v2, within_v2, intents.
   (* preparation *)
-  assert (HP0 : (match v2_tip t with Some _ => max_user_payload_length c <? v2_payload_len t | None => false end) = false
-                <-> match v2_tip t with Some _ => v2_payload_len t <= max_user_payload_length c | None => True end).
-  { destruct (v2_tip t); [|tauto]. destruct (N.ltb_spec (max_user_payload_length c) (v2_payload_len t)); split; auto; try discriminate; lia. }
-  destruct (match v2_tip t with Some _ => max_user_payload_length c <? v2_payload_len t | None => false end).
-  { split; [discriminate|]. intros ((W & _) & _). apply HP0 in W. discriminate. }
+  assert (HP0 : (match v2_tip t with
+                 | Some _ => negb (v2_preview t) && (max_user_payload_length c <? v2_payload_len t)
+                 | None => false end) = false
+                <-> match v2_tip t with
+                    | Some _ => v2_preview t = true \/ v2_payload_len t <= max_user_payload_length c
+                    | None => True end).
+  { destruct (v2_tip t); [|tauto]. destruct (v2_preview t); cbn [negb andb]; [split; auto|].
+    destruct (N.ltb_spec (max_user_payload_length c) (v2_payload_len t)); split; auto; try discriminate.
+    intros [X|X]; [discriminate|lia]. }
+  destruct (match v2_tip t with
+            | Some _ => negb (v2_preview t) && (max_user_payload_length c <? v2_payload_len t)
+            | None => false end).
+  { split; [discriminate|]. intros (W & _). wsplit W. apply HP0 in W1. discriminate. }
   pose proof (prepare_core_None c (v2_root t)) as HPr.
   destruct (prepare_core c (v2_root t)).
-  { split; [discriminate|]. intros ((_ & F & _) & _). inversion F; subst. apply HPr in H1. discriminate. }
-  destruct (N.ltb_spec (max_subintents_per_transaction c) (len (v2_subs t))); [split; [discriminate|lia]|].
+  { split; [discriminate|]. intros (W & _). wsplit W. inversion W2 as [|? ? X Y]; subst. apply HPr in X. discriminate. }
+  destruct (N.ltb_spec (max_subintents_per_transaction c) (len (v2_subs t))); [split; [discriminate|intros (W & _); wsplit W; lia]|].
   pose proof (prepare_cores_None c (v2_subs t)) as HPs.
   destruct (prepare_cores c (v2_subs t)).
-  { split; [discriminate|]. intros ((_ & F & _) & _). inversion F; subst. apply HPs in H3. discriminate. }
-  destruct (N.ltb_spec (max_subintents_per_transaction c) (len (v2_batches t))); [split; [discriminate|lia]|].
+  { split; [discriminate|]. intros (W & _). wsplit W. inversion W2 as [|? ? X Y]; subst. apply HPs in Y. discriminate. }
+  assert (HPB : negb (v2_preview t) && (max_subintents_per_transaction c <? len (v2_batches t)) = false
+                <-> (v2_preview t = true \/ len (v2_batches t) <= max_subintents_per_transaction c)).
+  { destruct (v2_preview t); cbn [negb andb]; [split; auto|].
+    destruct (N.ltb_spec (max_subintents_per_transaction c) (len (v2_batches t))); split; auto; try discriminate.
+    intros [X|X]; [discriminate|lia]. }
+  destruct (negb (v2_preview t) && (max_subintents_per_transaction c <? len (v2_batches t))).
+  { split; [discriminate|]. intros (W & _). wsplit W. apply HPB in W4. discriminate. }
   (* validation *)
   destruct (v2_transactions_allowed c); cbn [negb];
-    [|split; [discriminate|intros ((_ & _ & _ & _ & W & _) & _); discriminate]].
-  destruct (N.ltb_spec (max_signer_signatures_per_intent c) (v2_root_signatures t)); [split; [discriminate|lia]|].
+    [|split; [discriminate|intros (W & _); wsplit W; discriminate]].
+  destruct (N.ltb_spec (max_signer_signatures_per_intent c) (v2_root_signatures t)); [split; [discriminate|intros (W & _); wsplit W; lia]|].
   pose proof (len_eqb _ _ (v2_subs t) (v2_batches t)) as HL.
   destruct (len (v2_subs t) =? len (v2_batches t)); cbn [negb].
-  2:{ split; [discriminate|]. intros ((_ & _ & _ & _ & _ & _ & W & _) & _). apply HL in W. discriminate. }
+  2:{ split; [discriminate|]. intros (W & _). wsplit W. apply HL in W8. discriminate. }
   pose proof (batch_counts_None c (v2_batches t) 0) as HB.
   destruct (batch_counts c 0 (v2_batches t)).
-  { split; [discriminate|]. intros ((_ & _ & _ & _ & _ & _ & _ & W & _) & _). apply HB in W. discriminate. }
+  { split; [discriminate|]. intros (W & _). wsplit W. apply HB in W9. discriminate. }
+  assert (HD : (match v2_tip t with None => max_subintent_depth c =? 0 | Some _ => false end) = false
+               <-> (v2_tip t = None -> max_subintent_depth c <> 0)).
+  { destruct (v2_tip t); [split; [intros _ X; discriminate|auto]|].
+    destruct (N.eqb_spec (max_subintent_depth c) 0); split; auto; try discriminate. intro X. exfalso. apply X; auto. }
+  destruct (match v2_tip t with None => max_subintent_depth c =? 0 | Some _ => false end).
+  { split; [discriminate|]. intros (W & _). wsplit W. apply HD in W5. discriminate. }
   assert (HT : (match v2_tip t with
                 | Some tip => (tip <? min_tip_basis_points c) || (max_tip_basis_points c <? tip)
                 | None => false end) = false
@@ -378,29 +403,30 @@ Proof.
   destruct (match v2_tip t with
             | Some tip => (tip <? min_tip_basis_points c) || (max_tip_basis_points c <? tip)
             | None => false end).
-  { split; [discriminate|]. intros ((_ & _ & _ & _ & _ & _ & _ & _ & W & _) & _). apply HT in W. discriminate. }
+  { split; [discriminate|]. intros (W & _). wsplit W. apply HT in W10. discriminate. }
   pose proof (core_spec c net Root agg_start (v2_root t)) as HC.
   destruct (validate_intent_core c net Root agg_start (v2_root t)) as [e|a1].
-  { split; [discriminate|]. intros ((_ & _ & _ & _ & _ & _ & _ & _ & _ & F & O & _) & _). exfalso. apply HC.
-    inversion F; subst. split; auto. unfold agg_all, intents in O. cbn [fold_left] in O.
+  { split; [discriminate|]. intros (W & _). wsplit W. exfalso. apply HC.
+    inversion W11; subst. split; auto. unfold agg_all, intents in W12. cbn [fold_left] in W12.
     eapply fold_ok_back; eauto. }
   destruct HC as (WR & -> & OK1).
   pose proof (subs_spec c net (v2_subs t) 0 (agg_step agg_start (v2_root t))) as HS.
   destruct (validate_subs c net 0 (agg_step agg_start (v2_root t)) (v2_subs t)) as [e|a].
-  { split; [discriminate|]. intros ((_ & _ & _ & _ & _ & _ & _ & _ & _ & F & O & _) & _). exfalso. apply HS.
-    inversion F; subst. split; auto. apply steps_ok_iff; auto. }
+  { split; [discriminate|]. intros (W & _). wsplit W. exfalso. apply HS.
+    inversion W11; subst. split; auto. apply steps_ok_iff; auto. }
   destruct HS as (FS & -> & SO).
   change (fold_left agg_step (v2_subs t) (agg_step agg_start (v2_root t))) with (agg_all t).
   assert (OKall : agg_ok (agg_all t)) by (apply (steps_ok_iff (v2_subs t) _ OK1); exact SO).
-  destruct (N.ltb_spec (max_total_references c) (a_refs (agg_all t))); [split; [discriminate|lia]|].
+  destruct (N.ltb_spec (max_total_references c) (a_refs (agg_all t))); [split; [discriminate|intros (W & _); wsplit W; lia]|].
   fold (total_signature_validations t).
   destruct (N.ltb_spec (max_total_signature_validations c) (total_signature_validations t));
-    [split; [discriminate|lia]|].
+    [split; [discriminate|intros (W & _); wsplit W; lia]|].
   split.
   - intro E. inversion E. split; [|reflexivity].
     split; [apply HP0; reflexivity|].
     split; [constructor; [apply HPr; reflexivity|apply HPs; reflexivity]|].
-    split; [lia|]. split; [lia|]. split; [reflexivity|]. split; [lia|].
+    split; [lia|]. split; [apply HPB; reflexivity|]. split; [apply HD; reflexivity|].
+    split; [reflexivity|]. split; [lia|].
     split; [apply HL; reflexivity|]. split; [apply HB; reflexivity|].
     split; [apply HT; reflexivity|]. split; [constructor; auto|].
     split; [exact OKall|]. split; lia.
@@ -481,7 +507,7 @@ Theorem overall_window : forall c net t r, validate_v2 c net t = AcceptV2 r ->
      Forall (fun i => in_ts (h2_min_ts (i_header i)) (h2_max_ts (i_header i)) x) (intents t)).
 Proof.
   intros c net t r H. apply v2_accept_iff in H. destruct H as (W & ->).
-  destruct W as (_ & _ & _ & _ & _ & _ & _ & _ & _ & _ & (O1 & O2) & _).
+  destruct W as (_ & _ & _ & _ & _ & _ & _ & _ & _ & _ & _ & (O1 & O2) & _).
   cbn [range_of r_start r_end r_min_ts r_max_ts]. split; [exact O1|]. split; [exact O2|]. split.
   - intro x. unfold agg_all. rewrite agg_epochs. unfold in_epochs at 1. cbn [agg_start a_start a_end].
     split; [intros ((_ & A) & F); split; assumption|intros (A & F); split; [split; [lia|exact A]|exact F]].
@@ -494,7 +520,7 @@ Theorem epoch_window_v2 : forall c net t r, validate_v2 c net t = AcceptV2 r ->
                    h2_end (i_header i) <= h2_start (i_header i) + max_epoch_range c) (intents t).
 Proof.
   intros c net t r H. apply v2_accept_iff in H. destruct H as (W & _).
-  destruct W as (_ & _ & _ & _ & _ & _ & _ & _ & _ & F & _).
+  destruct W as (_ & _ & _ & _ & _ & _ & _ & _ & _ & _ & F & _).
   eapply Forall_impl; [|exact F]. intros i (_ & (A & B & _) & _). split; assumption.
 Qed.
 Theorem epoch_window_v1 : forall c net t, validate_v1 c net t = AcceptV1 ->
@@ -506,7 +532,7 @@ Qed.
 
 (* ---------- boundary checks, executable (instantiated on the generated configs in Props) ---------- *)
 Definition is_accept (o : outcome) : bool :=
-  match o with AcceptV1 | AcceptV2 _ => true | Reject _ => false end.
+  match o with AcceptV1 | AcceptV2 _ => true | Reject _ | PanicDepthUnderflow => false end.
 Definition hdr1 (c : config) : header_v1 :=
   {| h1_network := 1; h1_start := 10; h1_end := 11; h1_tip_percentage := min_tip_percentage c |}.
 Definition base1 (c : config) : tx_v1 :=
@@ -571,7 +597,7 @@ Definition int2 (h : header_v2) (m : message) (refs instrs blobs children : N) :
 Definition base_int : intent_v2 := int2 (hdr2 10 11 None None) MNone 0 1 0 0.
 Definition tx2 (c : config) (tip : N) (root : intent_v2) (rs : N) (subs : list intent_v2) (bs : list N) : tx_v2 :=
   {| v2_payload_len := 100; v2_tip := Some tip; v2_root := root; v2_root_signatures := rs;
-     v2_subs := subs; v2_batches := bs |}.
+     v2_subs := subs; v2_batches := bs; v2_preview := false |}.
 Definition base2 (c : config) : tx_v2 := tx2 c (min_tip_basis_points c) base_int 0 [] [].
 (* spread n signatures over batches of at most `per` *)
 Fixpoint spread (fuel : nat) (n per : N) : list N :=
@@ -587,7 +613,7 @@ Definition total_case (c : config) (total : N) : tx_v2 :=
 Definition v2_fields (c : config) : list (N * (N -> tx_v2)) :=
   let tip := min_tip_basis_points c in
   [ (max_user_payload_length c, fun v => {| v2_payload_len := v; v2_tip := Some tip; v2_root := base_int;
-        v2_root_signatures := 0; v2_subs := []; v2_batches := [] |});
+        v2_root_signatures := 0; v2_subs := []; v2_batches := []; v2_preview := false |});
     (max_tip_basis_points c, fun v => tx2 c v base_int 0 [] []);
     (max_blobs c, fun v => tx2 c tip (int2 (hdr2 10 11 None None) MNone 0 1 v 0) 0 [] []);
     (max_child_subintents_per_intent c, fun v => tx2 c tip (int2 (hdr2 10 11 None None) MNone 0 1 0 v) 0 [] []);
@@ -627,3 +653,97 @@ Definition v2_boundaries (c : config) : bool :=
     (* one batch too few *)
     negb (is_accept (validate_v2 c (Some 1) (tx2 c (min_tip_basis_points c) base_int 0 [base_int] [])))
   else negb (is_accept (validate_v2 c (Some 1) (base2 c))).
+
+(* ---------- the configured-depth-0 underflow ---------- *)
+Lemma prepare_core_permitted : forall c i, prepare_core c i = None -> v2_transactions_permitted c = true.
+Proof. intros c i H. apply prepare_core_None in H. destruct H; auto. Qed.
+Theorem v2_panic_only_if : forall c net t,
+  validate_v2 c net t = PanicDepthUnderflow ->
+  v2_transactions_permitted c = true /\ v2_transactions_allowed c = true /\
+  max_subintent_depth c = 0 /\ v2_tip t = None.
+Proof.
+  intros c net t. unfold validate_v2, prepare_v2.
+  destruct (match v2_tip t with
+            | Some _ => negb (v2_preview t) && (max_user_payload_length c <? v2_payload_len t)
+            | None => false end); [discriminate|].
+  destruct (prepare_core c (v2_root t)) eqn:EP; [discriminate|].
+  apply prepare_core_permitted in EP.
+  destruct (max_subintents_per_transaction c <? len (v2_subs t)); [discriminate|].
+  destruct (prepare_cores c (v2_subs t)); [discriminate|].
+  destruct (negb (v2_preview t) && (max_subintents_per_transaction c <? len (v2_batches t))); [discriminate|].
+  destruct (v2_transactions_allowed c); cbn [negb]; [|discriminate].
+  destruct (max_signer_signatures_per_intent c <? v2_root_signatures t); [discriminate|].
+  destruct (len (v2_subs t) =? len (v2_batches t)); cbn [negb]; [|discriminate].
+  destruct (batch_counts c 0 (v2_batches t)); [discriminate|].
+  destruct (v2_tip t) as [tip|] eqn:ET.
+  - destruct ((tip <? min_tip_basis_points c) || (max_tip_basis_points c <? tip)); [discriminate|].
+    destruct (validate_intent_core c net Root agg_start (v2_root t)); [discriminate|].
+    destruct (validate_subs c net 0 a (v2_subs t)); [discriminate|].
+    destruct (max_total_references c <? a_refs a0); [discriminate|].
+    destruct (max_total_signature_validations c <? _); discriminate.
+  - destruct (N.eqb_spec (max_subintent_depth c) 0).
+    + intros _. auto.
+    + destruct (validate_intent_core c net Root agg_start (v2_root t)); [discriminate|].
+      destruct (validate_subs c net 0 a (v2_subs t)); [discriminate|].
+      destruct (max_total_references c <? a_refs a0); [discriminate|].
+      destruct (max_total_signature_validations c <? _); discriminate.
+Qed.
+(* and it IS reached: the smallest signed partial transaction under a V2-enabled configuration with depth 0 *)
+Definition depth0_witness : tx_v2 :=
+  {| v2_payload_len := 100; v2_tip := None;
+     v2_root := {| i_header := {| h2_network := 1; h2_start := 10; h2_end := 11; h2_min_ts := None; h2_max_ts := None |};
+                   i_message := MNone; i_references := 0; i_instructions := 1; i_blobs := 0; i_children := 0 |};
+     v2_root_signatures := 0; v2_subs := []; v2_batches := []; v2_preview := false |}.
+
+(* ---------- V1 preview ---------- *)
+Definition within_preview_v1 (c : config) (net : option N) (t : tx_v1) : Prop :=
+  v1_blobs t <= max_blobs c /\
+  net_within net (h1_network (v1_header t)) /\
+  epoch_within c (h1_start (v1_header t)) (h1_end (v1_header t)) /\
+  (min_tip_percentage c <= h1_tip_percentage (v1_header t) /\
+   h1_tip_percentage (v1_header t) <= max_tip_percentage c) /\
+  msg_within c (v1_message t) /\
+  v1_references t <= max_references_per_intent c /\
+  v1_instructions t <= max_instructions c /\
+  v1_references t <= max_total_references c.
+Theorem preview_v1_accept_iff : forall c net t,
+  validate_preview_v1 c net t = AcceptV1 <-> within_preview_v1 c net t.
+Proof.
+  intros c net t. unfold validate_preview_v1, validate_header_v1, within_preview_v1.
+  destruct (N.ltb_spec (max_blobs c) (v1_blobs t)); [split; [discriminate|lia]|].
+  pose proof (network_check_None net (h1_network (v1_header t))) as HN.
+  destruct (network_check net (h1_network (v1_header t))).
+  { split; [discriminate|]. intros (_ & W & _). apply HN in W. discriminate. }
+  pose proof (epoch_check_None c (h1_start (v1_header t)) (h1_end (v1_header t))) as HE.
+  destruct (epoch_check c (h1_start (v1_header t)) (h1_end (v1_header t))).
+  { split; [discriminate|]. intros (_ & _ & W & _). apply HE in W. discriminate. }
+  destruct (N.ltb_spec (h1_tip_percentage (v1_header t)) (min_tip_percentage c)); cbn [orb];
+    [split; [discriminate|lia]|].
+  destruct (N.ltb_spec (max_tip_percentage c) (h1_tip_percentage (v1_header t)));
+    [split; [discriminate|lia]|].
+  pose proof (validate_message_None c (v1_message t)) as HM.
+  destruct (validate_message c (v1_message t)).
+  { split; [discriminate|]. intros (_ & _ & _ & _ & W & _). apply HM in W. discriminate. }
+  destruct (N.ltb_spec (max_references_per_intent c) (v1_references t)); [split; [discriminate|lia]|].
+  destruct (N.ltb_spec (max_instructions c) (v1_instructions t)); [split; [discriminate|lia]|].
+  destruct (N.ltb_spec (max_total_references c) (v1_references t)); [split; [discriminate|lia]|].
+  split; auto. intros _.
+  split; [lia|]. split; [apply HN; reflexivity|]. split; [apply HE; reflexivity|]. split; [lia|].
+  split; [apply HM; reflexivity|]. split; [lia|]. split; lia.
+Qed.
+(* a notarized V1 transaction is valid iff its intent passes preview validation and, in addition, the
+   payload length and the signature counts are within their limits: preview checks nothing about signatures *)
+Theorem v1_accept_iff_preview : forall c net t,
+  validate_v1 c net t = AcceptV1 <->
+  validate_preview_v1 c net t = AcceptV1 /\
+  v1_payload_len t <= max_user_payload_length c /\
+  v1_signatures t <= max_signer_signatures_per_intent c /\
+  v1_signatures t + 1 <= max_total_signature_validations c.
+Proof.
+  intros c net t. rewrite v1_accept_iff, preview_v1_accept_iff. unfold within_v1, within_preview_v1. tauto.
+Qed.
+Theorem preview_v1_ignores_signatures : forall c net t t',
+  v1_header t = v1_header t' -> v1_message t = v1_message t' -> v1_references t = v1_references t' ->
+  v1_instructions t = v1_instructions t' -> v1_blobs t = v1_blobs t' ->
+  validate_preview_v1 c net t = validate_preview_v1 c net t'.
+Proof. intros c net t t' H1 H2 H3 H4 H5. unfold validate_preview_v1. rewrite H1, H2, H3, H4, H5. reflexivity. Qed.
